@@ -957,6 +957,33 @@ func (e *Env) evalCall(n *ECall) (*Val, error) {
 			return fr.convert(nil, a[0], types.NewSlice(types.Typ[types.Byte]), types.Typ[types.String]), nil
 		case "nobytes":
 			return scalar(c.mkSlice(SInt, nil), types.NewSlice(types.Typ[types.Byte])), nil
+		case "addr":
+			// addr(p.f): the address of struct-typed field f of object p (e.g. a mutex)
+			if len(n.Args) != 1 {
+				return nil, fmt.Errorf("addr(p.f)")
+			}
+			sel, ok := n.Args[0].(*ESel)
+			if !ok {
+				return nil, fmt.Errorf("addr(p.f)")
+			}
+			base, err := e.eval(sel.X)
+			if err != nil {
+				return nil, err
+			}
+			pt, ok := base.Typ.Underlying().(*types.Pointer)
+			if !ok {
+				return nil, fmt.Errorf("addr: %s is not a pointer", describe(base))
+			}
+			stt, ok := pt.Elem().Underlying().(*types.Struct)
+			if !ok {
+				return nil, fmt.Errorf("addr: not a struct pointer")
+			}
+			for i := 0; i < stt.NumFields(); i++ {
+				if stt.Field(i).Name() == sel.Name {
+					return scalar(tApp(SV, c.embFun(pt.Elem(), stt.Field(i)), base.T), types.NewPointer(stt.Field(i).Type())), nil
+				}
+			}
+			return nil, fmt.Errorf("addr: no field %s", sel.Name)
 		case "unbox":
 			// unbox(x, T): the value of non-reference type T held in interface value x
 			if len(n.Args) != 2 {
